@@ -38,6 +38,11 @@ P = {
          "only after `retries` unconfirmed transmissions) - by a simulation invariant; real Number/Switch objects run the same histories under the "
          "virtual-time loop and are compared point by point.",
          "partial for scheduling: the order in which a report and a timer expiring at the same instant are served is chosen by the harness (both orders generated)."),
+ "C15": ("Theorems C15_refines (for every set of unsupported kinds and every history of announcements over request kinds and unknown codes, the "
+         "handler model emits exactly the requests the abstract specification demands - one per announced code that is a known request kind, "
+         "supported, and whose recorded version differs - and records them; by an abstraction function into a total map), C15_idempotent, "
+         "C15_silent - closed; implementation driven through the frame_versions event and through real sensor-data frames.",
+         "announcements naming known response/message kinds are outside the quantifier (handler raises TypeError, observation O1)."),
  "C17": ("Theorems C17_inverse / C17_accept: for every number description of the generated tables and every raw value below 256^size, the displayed "
          "value exists and writing it back yields that raw value - complete kernel evaluation (vm_compute over PrimFloat, 65536 + 3x256 raw values of "
          "the 4 distinct scalings, lifted by forallb_forall; the bound is in the statement). Depends on the kernel float/int63 primitives only. "
